@@ -3,6 +3,8 @@ import JominiModel.Spec.Dom
 import JominiModel.Proofs.Dom
 import JominiModel.Proofs.DomGroups
 import JominiModel.Proofs.DomBridge
+import JominiModel.Proofs.TextTapeDomWf
+import JominiModel.Proofs.JsonWfBridge
 /-
 C17 — DOM iterators, lengths and groupings agree with each other.
 
@@ -328,5 +330,21 @@ open Jomini.DomBridge in
 theorem C17_bridge_writer_nextIdxHeader : type_of% @writer_nextIdxHeader := @writer_nextIdxHeader
 open Jomini.DomBridge in
 theorem C17_bridge_writer_nextIdxValues : type_of% @writer_nextIdxValues := @writer_nextIdxValues
+
+/-- every tape that is the token list of a JSON-slice document tree satisfies the DOM hypothesis
+(the converse fails: `json_wf_converse_fails`). -/
+theorem C17_bridge_json_wf : type_of% @Jomini.JsonWfBridge.json_wf := @Jomini.JsonWfBridge.json_wf
+
+/-- C17 at EVERY tape the text parser model accepts (no hypothesis left): the root reader and every
+reader reachable from it are regular object / array ranges inside the tape, so `C17_fields_len`,
+`C17_values_len`, `C17_groups`, `C17_remainder_*` and `C17_no_panic` apply at every reachable
+object and array of every parsed document. -/
+theorem C17_on_parsed_tapes (input : Bytes) (T : List TextTape.Tok) (b : Bool)
+    (h : TextTape.parse input = .ok T b) :
+    WfObj (TextTape.toDomTape T) (rootReader (TextTape.toDomTape T)).1 (rootReader (TextTape.toDomTape T)).2 ∧
+    (∀ vi r, readObject (TextTape.toDomTape T) vi = .ok (some r) →
+      WfObj (TextTape.toDomTape T) r.1 r.2 ∧ r.1 ≤ r.2 ∧ r.2 ≤ (TextTape.toDomTape T).size) ∧
+    (∀ vi r, readArray (TextTape.toDomTape T) vi = .ok (some r) → r.1 ≤ r.2 ∧ r.2 ≤ (TextTape.toDomTape T).size) :=
+  C17_closure _ (TextTape.C17_parsed_tape_wf input T b h)
 
 end Jomini.Props.C17
